@@ -20,6 +20,13 @@ SumSh(sh) == FoldLeft(LAMBDA a, b : a + b, 0, sh)
 HookList(sh) == FoldLeft(LAMBDA acc, r : acc \o [c \in 1..sh[r] |-> Hook(sh, r, c)], <<>>, [r \in 1..Len(sh) |-> r])
 ProdSeq(s) == FoldLeft(LAMBDA a, b : a * b, 1, s)
 F(sh) == IF sh = <<>> THEN 1 ELSE Fact(SumSh(sh)) \div ProdSeq(HookList(sh))
+\* large shapes with few tableaux (Fact overflows TLC's 32-bit integers beyond 12 boxes): hooks (a, 1^k) have C(a+k-1, k) standard tableaux,
+\* two-row shapes (a, b) have C(a+b, b) - C(a+b, b-1) (ballot numbers); binomials from Pascal's triangle (additions only, < 2^31 for n <= 33)
+PascalRow(n) == FoldLeft(LAMBDA row, i : [j \in 1..(Len(row) + 1) |-> (IF j = 1 THEN 0 ELSE row[j - 1]) + (IF j = Len(row) + 1 THEN 0 ELSE row[j])], <<1>>, [i \in 1..n |-> i])
+BinomP(n, k) == IF k < 0 \/ k > n THEN 0 ELSE PascalRow(n)[k + 1]
+IsHookShape(sh) == \A r \in 2..Len(sh) : sh[r] = 1
+FBig(sh) == IF IsHookShape(sh) THEN BinomP(SumSh(sh) - 1, Len(sh) - 1)
+            ELSE IF Len(sh) = 2 THEN BinomP(sh[1] + sh[2], sh[2]) - BinomP(sh[1] + sh[2], sh[2] - 1) ELSE -1
 Removable(sh) == {r \in 1..Len(sh) : r = Len(sh) \/ sh[r] > sh[r + 1]}
 RemoveBox(sh, r) == IF sh[r] = 1 THEN SubSeq(sh, 1, Len(sh) - 1) ELSE [sh EXCEPT ![r] = sh[r] - 1]
 IsStandard(t) == /\ \A r \in 1..Len(t) : Len(t[r]) >= 1 /\ (r = 1 \/ Len(t[r - 1]) >= Len(t[r]))
